@@ -223,6 +223,42 @@ def t_structure(E):
     E.prove(rebinding == ['__init__', 'set_page'], 'the viewport buffer is re-bound only by __init__ and set_page')
 
 
+class _Page(object):
+    _pyvc_trusted = True
+    def __init__(self, n):
+        self.pixels = _Pixels(64, 48)
+        self.n = n
+
+class _CMap(object):
+    num_attr = 16
+
+def t_active_page(E, first, second):
+    """After any sequence init_mode / set_page the viewport writes into the active page's buffer."""
+    g = object.__new__(graphics.Graphics)
+    g._window_bounds = None
+    g._apagenum, g._apage, g.graph_view = None, None, None
+    mode = _Mode(False, 64, 48)
+    mode.attr = 7
+    pages1 = [_Page(i) for i in range(4)]
+    if E.mode == 'symbolic':
+        E.interp.contracts[graphics.Graphics._unset_window] = lambda I, args, kw: None
+    else:
+        g._unset_window = lambda: None
+    E.call(g.init_mode, mode, pages1, _CMap())
+    E.call(g.set_page, first)
+    E.prove(g.graph_view._pixels is pages1[first].pixels, 'after SCREEN ,,apage the viewport is bound to the active page')
+    # a mode change keeps the page number: new page objects, same number
+    pages2 = [_Page(i) for i in range(4)]
+    E.call(g.init_mode, mode, pages2, _CMap())
+    E.call(g.set_page, second)
+    E.prove(g.graph_view._pixels is pages2[second].pixels,
+            'after a mode change the viewport is bound to the active page of the new mode (also when the page number is unchanged)')
+    r = E.call(g.graph_view.__setitem__, (3, 4), 9)
+    E.prove(pages2[second].pixels.stores == [(3, 4)] and
+            all(p.pixels.stores == [] for p in pages1 + pages2 if p is not pages2[second]),
+            'a store reaches the active page and no other page')
+
+
 class _SpyArgs(object):
     _pyvc_trusted = True
     def __init__(self, log):
@@ -255,6 +291,8 @@ TASKS = [
     Task('GraphicsViewPort.cutoff_coord', t_cutoff, cases=[{'active': a} for a in (True, False)]),
     Task('Graphics._draw_box_filled', t_box_filled, cases=[{'active': a} for a in (True, False)]),
     Task('Graphics: stores go through the viewport (structure)', t_structure),
+    Task('Graphics.init_mode/set_page (active page)', t_active_page,
+         cases=[{'first': a, 'second': b} for a in (0, 1, 3) for b in (0, 1, 3)]),
     Task('text mode guards', t_text_mode,
          cases=[{'stmt': s} for s in ('pset_', 'preset_', 'line_', 'circle_', 'paint_', 'put_', 'get_', 'draw_', 'view_', 'window_')]),
 ]
